@@ -673,7 +673,7 @@ def machine_args(run, extra=()):
 
 @check("C08")
 def c08(run):
-    run.trace_leg("machine", ["machine", "kind=all"], verdict=CONF + ["simerr"])
+    run.trace_leg("machine", ["machine", "kind=all"], verdict=CONF + ["simerr", "intgate", "depth", "isolation", "obsprop"])
     return run.finish(
         rule="runs of the real Simulator (random machine states x random words at PC; structured programs through "
              "the real OS with keyboard input; interrupt schedules with harness devices, keyboard interrupts and "
@@ -702,6 +702,7 @@ def c16(run):
                   verdict=["panic", "simerr", "prefetchpc"])
     run.trace_leg("edge", ["machine", "kind=edge"], verdict=["panic", "simerr", "prefetchpc"])
     run.trace_leg("rand", ["machine", "kind=rand", "strict=30"], verdict=["panic", "simerr", "prefetchpc"])
+    run.trace_leg("bound", ["machine", "kind=bound"], verdict=["panic", "simerr", "prefetchpc"])
     return run.finish(
         rule="seeded random full-memory images, PC at every page boundary (xNN00/xNNFF incl. xFFFF and x0000), all "
              "16 flag combinations, keyboard/display/timer/internal-register mappings; N steps then prefetch_pc(); "
@@ -713,7 +714,8 @@ def c16(run):
 def c27(run):
     run.trace_leg("prog", ["machine", "kind=prog", "dbg=1"], verdict=["depth", "frames", "fno", "panic"])
     run.trace_leg("int", ["machine", "kind=int", "dbg=1"], verdict=["depth", "frames", "fno", "panic"])
-    run.trace_leg("rand", ["machine", "kind=rand"], verdict=["depth", "frames", "fno", "panic"])
+    run.trace_leg("rand", ["machine", "kind=rand", "strict=40", "dbg=1"], verdict=["depth", "frames", "fno", "panic"])
+    run.trace_leg("bound", ["machine", "kind=bound", "dbg=1"], verdict=["depth", "frames", "fno", "panic"])
     return run.finish(
         rule="programs with nested JSR/JSRR/TRAP, unbalanced returns, interrupts, registered calling-convention and "
              "pass-by-register signatures; DepthOK (calls - returns with saturation, classified from the fetched "
